@@ -88,11 +88,10 @@ def _process_step_expression(
                             new_target_assets.append(ag_node)
 
                 case 'difference':
-                    new_target_assets = lh_targets
                     for ag_node in lh_targets:
                         if next((rnode for rnode in rh_targets \
-                            if rnode.id != ag_node.id), None):
-                            new_target_assets.remove(ag_node)
+                            if rnode.id == ag_node.id), None) is None:
+                            new_target_assets.append(ag_node)
 
             return (new_target_assets, None)
 
